@@ -145,7 +145,8 @@ class AdaptationSet(ObjectWithFields):
     def append_cgi_params(self, params: dict[str, str]) -> None:
         if not params:
             return
-        qs = dict_to_cgi_params(params)
+        # a '$' in a value must not be read as a template identifier
+        qs = dict_to_cgi_params(params).replace('$', '$$')
         self.mediaURL += qs
         if self.mode != 'odvod':
             self.initURL += qs
